@@ -476,13 +476,19 @@ impl<'a> Runner<'a> {
         ctx.count(&format!("retained-max:{}", max_retained.min(12)));
     }
 
-    /// The serials a client must get a change set for: the current one and
-    /// the last `max(history-size, 1)` serials created by changes.
+    /// The serials a client must get a change set for: those among the last
+    /// `max(history-size, 1)` serials (current one included) that were issued.
     fn required(&self, mem: &Memory, keep: u64, cur: u32, c: u32) -> bool {
-        if c == cur { return true }
+        let bound = keep.max(1).min(1 << 31);
+        let behind = cur.wrapping_sub(c) as u64;
+        behind < bound && mem.issued.contains_key(&c)
+    }
+
+    /// The serial of the version the oldest retained change set starts from.
+    fn retained_base(&self, mem: &Memory, keep: u64) -> Option<u32> {
         let bound = keep.max(1).min(1 << 40) as usize;
         let n = mem.chain.len().min(bound);
-        mem.chain[mem.chain.len() - n..].contains(&c)
+        if n == 0 { None } else { Some(mem.chain[mem.chain.len() - n].wrapping_sub(1)) }
     }
 
     fn oracle_refused(
@@ -494,9 +500,17 @@ impl<'a> Runner<'a> {
                 input, json!({"serial": c, "current": cur}));
         }
         else if self.required(mem, keep, cur, c) {
-            ctx.oracle_fail(&format!("{via}-window-serial-refused"),
-                "a client at one of the last history-size serials was refused",
-                input, json!({"serial": c, "current": cur, "chain": mem.chain}));
+            if self.retained_base(mem, keep) == Some(c) {
+                ctx.oracle_fail(&format!("{via}-retained-base-version-refused"),
+                    "a client at one of the last history-size serials — the version the oldest retained \
+                     change set starts from — was refused although every change set needed is retained",
+                    input, json!({"serial": c, "current": cur, "chain": mem.chain}));
+            }
+            else {
+                ctx.oracle_fail(&format!("{via}-window-serial-refused"),
+                    "a client at one of the last history-size serials was refused",
+                    input, json!({"serial": c, "current": cur, "chain": mem.chain}));
+            }
         }
         else if mem.issued.contains_key(&c) && via == "rtr" {
             ctx.count("obs:issued-serial-outside-window-refused");
